@@ -31,9 +31,30 @@ let know_of : (string, int list) Hashtbl.t = Hashtbl.create 8
 let last_vm : (string * string * string) option ref = ref None
 let cur_rep = ref ""
 
+(* finding T3 changes READS only through one mechanism: a key remove (or a merge) drops a whole entry whose
+   nested value holds a parked remove, so the parked remove is lost with it.  Whether that happened at some
+   replica of the current case is tracked from the logged before/after states; without it T3 is residue
+   only (C20) and a read-level violation (C05 C08) is not attributed to it *)
+let t3_drop = ref false
+let has_pending_ (s : sx) : bool =
+  let rec go = function
+    | L [A "deferred"; L (A "M" :: (_ :: _))] -> true
+    | L l -> List.exists go l
+    | A _ -> false in
+  go s
+let rec entry_dropped_with_pending (b : sx) (a : sx) : bool =
+  try
+    let be = pairs_of_map (field "entries" b) and ae = pairs_of_map (field "entries" a) in
+    List.exists (fun (k, e) ->
+      let v = field "val" e in
+      match List.find_opt (fun (k', _) -> show_sx k' = show_sx k) ae with
+      | None -> has_pending_ v
+      | Some (_, e') -> entry_dropped_with_pending v (field "val" e')) be
+  with Bad _ -> false
+
 let report prop what =
   (* a violation inside a listed known-finding class is reported as KNOWN *)
-  let kf = List.filter (fun (fid, _) -> Known.applies fid prop) !classes in
+  let kf = List.filter (fun (fid, _) -> Known.applies fid prop && not (fid = "T3" && prop <> "C20" && not !t3_drop)) !classes in
   match kf with
   | (fid, _) :: _ ->
       incr knowns;
@@ -46,6 +67,7 @@ let expect prop what b = count prop; if not b then report prop (what ())
 let expect_all props what b = List.iter (fun p -> expect p what b) props
 
 let on_case (_id : string) (t : string) (line : string) =
+  t3_drop := false;
   ty := t; tainted := false; merges_seen := false; all_causal := true; all_per_actor := true; hist := []; pre := []; case_nontrivial := false; classes := [];
   Hashtbl.reset know_of; last_vm := None;
   (match parse_sx line with
@@ -446,6 +468,8 @@ let on_call (case : string) (cmd : string) (f : string) (a : sx list) =
      | "serde" -> if not !tainted then serde_call a
      | _ -> ());
     if not !tainted then (try c11_call pre_ fn a with Bad _ -> ());
+    (if is_map pre_ && pre_ = !ty && (fn = "apply" || fn = "merge") then
+       match a with [b; _; r] -> if entry_dropped_with_pending b r then t3_drop := true | _ -> ());
     if not !tainted then (try opctor_call pre_ fn a with Bad _ -> ());
     if not !tainted && discipline_ok () then begin generic_call pre_ fn a; ctx_call pre_ fn a end
   with Bad m -> report "DRIVER" ("monitor error: " ^ m)
@@ -506,13 +530,18 @@ let spec_check (know : int list) (s : sx) =
       (* value level, Map<K, Orswot>: op-based causal delivery without state transfer -- the member table under
          every key is the specification of the knowledge (theorems C05_mapor_values_refine / C01_mapor_converge of
          proofs/MapOrswot.v; T2 needs a merge, T3 leaves member tables alone: never attributed to a known finding) *)
-      (* EXPERIMENT (statement validation): Map<K,Orswot> whose keys are never removed: complete state = spec, merges included *)
+      (* Map<K, Orswot> whose keys are never removed, per-actor delivery, duplicates and MERGES: the complete state is
+         [mapor_spec_nk] of the knowledge (theorems C01_mapor_nk_refine, C03_mapor_nk_merge_spec, C08_mapor_nk_per_actor,
+         C20_mapor_nk_state_eq, C05_mapor_nk_ok; proofs/MapOrswotNK.v); theorem-backed, never attributed to a known finding *)
       if !ty = "mapor" && !all_per_actor
          && not (List.exists (fun (_, o, _) -> Known.is_rm o) !hist) then begin
         let okv = mapor_nk_ok (history_of (mop_sx or_inst)) k (cmap_sx or_inst s) in
         stat ("mapnk_" ^ (if okv then "ok" else "bad") ^ (if !merges_seen then "_merge" else ""));
-        if not okv && (try Sys.getenv "VERIF_SHOW_M2" = "1" with Not_found -> false) then
-          Printf.printf "NKBAD case=%s cmd=%s\n" (fst !cur) (snd !cur)
+        let saved = !classes in
+        classes := [];
+        expect_all (["C05"; "C20"] @ (if !merges_seen then ["C03"] else if !all_causal then ["C01"] else ["C08"]))
+          (fun () -> "Map<K,Orswot> without key removes: the complete state (map clock, keys, entry clocks, nested sets with witness clocks and parked removes) differs from the specification of the replica's knowledge") okv;
+        classes := saved
       end;
       (* value level at depth 2, Map<K1, Map<K2, Orswot>>, causal op-based delivery: theorems
          C05_map2_values_refine / C05_map2_valspec_ok / C01_map2_converge (proofs/MapMapOrswot.v);
@@ -646,6 +675,12 @@ let on_event (case : string) (cmd : string) (x : sx) =
           (* a law line is itself about merged states: the merge-dependent class T2 applies *)
           let saved = !classes in
           classes := Known.classify !ty (List.rev_map (fun (_, o, _) -> o) !hist);
+          (* the known finding T2 (resurrection through entry-clock compression) is a failure of merge GROUPING
+             (associativity, hybrid, stale states): argument order and repetition are not affected by it, so a
+             commutativity / idempotence failure is a different violation and is never attributed to T2.
+             (T1 does break idempotence: a register whose value clocks were trimmed by a partial key remove may
+             hold ordered clocks, and merging it with itself drops the dominated value.) *)
+          if prop = "C02" && (kind = "comm" || kind = "idem") then classes := List.filter (fun (f, _) -> f <> "T2") !classes;
           stat ("law_" ^ kind);
           let cut x = String.sub (show_sx x) 0 (min 400 (String.length (show_sx x))) in
           expect prop (fun () -> Printf.sprintf "%s law fails on reads: %s vs %s" kind (cut a) (cut b)) (reads = "true");
